@@ -169,13 +169,13 @@ def main(argv=None):
                         v = dict(v, case=case, detail=h.violations[sig]['detail'])
             except Exception:
                 traceback.print_exc()
-        d = os.path.join(VERIF, 'replays', pid)
+        d = os.path.join(os.environ.get('VERIF_OUT_DIR', VERIF), 'replays', pid)
         os.makedirs(d, exist_ok=True)
         path = os.path.join(d, sig_file(sig) + '.json')
         with open(path, 'w') as f:
             json.dump({'property': pid, 'signature': sig, 'detail': v['detail'], 'seed': a.seed,
                        'tier': a.tier, 'case': v['case']}, f, indent=1, sort_keys=True, default=str)
-        lines.append('VIOLATION property=%s replay=%s' % (pid, os.path.relpath(path, VERIF)))
+        lines.append('VIOLATION property=%s replay=%s' % (pid, os.path.relpath(path, VERIF) if path.startswith(VERIF) else path))
         lines.append('  signature: %s   (%d cases)' % (sig, v['count']))
         lines.append('  detail: %s' % v['detail'][:600])
         rc = 1
@@ -210,8 +210,9 @@ def main(argv=None):
         'wall_s': round(wall, 2),
         'violations': new_viol,
     }
-    os.makedirs(os.path.join(VERIF, 'evidence'), exist_ok=True)
-    with open(os.path.join(VERIF, 'evidence', pid + '.json'), 'w') as f:
+    evdir = os.path.join(os.environ.get('VERIF_OUT_DIR', VERIF), 'evidence')
+    os.makedirs(evdir, exist_ok=True)
+    with open(os.path.join(evdir, pid + '.json'), 'w') as f:
         json.dump(ev, f, indent=1, sort_keys=True, default=str)
 
     for l in lines:
